@@ -394,7 +394,7 @@ Lemma bs_step_set_params : forall st s b, bases_sub (fst (step_set_params st s b
 Proof.
   intros st s b. unfold step_set_params. destruct (negb (is_kind st KSpace s)); [apply bases_sub_refl|]. cbn [fst].
   apply bs_upd_cont; [intros c x Hx; exact Hx|].
-  destruct (c_params (get_cont st s)); [apply bs_discard_items|]; apply bases_sub_refl.
+  apply bs_discard_items, bases_sub_refl.
 Qed.
 
 Lemma bs_step_eval : forall st c x, bases_sub (fst (step_eval st c x)) st.
